@@ -60,14 +60,31 @@ def gen_interfere(r, tier):
             ops.append("#healed")
         ncyc = r.range(2, 30 if kind != "cmd" else 12)   # cmd fans: every cycle is a few real process executions
         at = r.range(0, ncyc - 1)
+        # the value fan2go itself would write for the curve's two ends (direct loop): a third party may set exactly that
+        def would_write(cv):
+            tgt = (hi if cv == 255 else (lo if ns else 0)) if kind == "hwmon" else cv
+            ks = distinct_keys(pm)
+            best = min(ks, key=lambda k: (abs(k - tgt), k))
+            return pm[best]
         for c in range(ncyc):
             if c == at or r.chance(0.1):
                 t = []
-                if r.chance(0.7):
+                if r.chance(0.25):
+                    # the third party anticipates fan2go: it sets the register to the very value the next cycle is going to
+                    # request (the curve jumps to an end of its range at the same moment). The cycle then finds nothing to
+                    # write - and everything it remembers must still be as after a write of its own (seed C05h: the
+                    # request was only recorded when something was written; every later cycle blamed a third party)
+                    curve = r.pick([0, 255])
+                    t.append(f"pwm={would_write(curve)}")
+                elif r.chance(0.7):
                     t.append(f"pwm={r.range(0, 255)}")
                 if kind == "hwmon" and r.chance(0.7):
                     t.append(f"mode={r.pick([0, 2, 3])}")
-                ops.append("w.dev " + " ".join(t or [f"pwm={r.range(0,255)}"]))
+                # the interference may come with a re-enumeration of the device (resume, driver re-probe): the configured
+                # path, a symbolic link as /sys/class/hwmon/hwmonN is, then leads to a new directory (seed C05g: resolved
+                # paths cached for ever, writes went to the old directory)
+                rp = " reprobe=1" if kind != "cmd" and r.chance(0.25) else ""
+                ops.append("w.dev " + " ".join(t or [f"pwm={r.range(0,255)}"]) + rp)
             if r.chance(0.3):
                 curve = r.pick([0, 255, r.range(0, 255)])
             now += r.pick([50_000_000, 200_000_000, 2_000_000_000])
